@@ -307,7 +307,8 @@ Theorem compile_f1_shape M B :
   exists rest,
     p_bytecode B = encode (code_main (p_ids B) (main_cards M) ++ IExit :: rest) /\
     (forall n, In n (main_names (main_cards M)) -> nm_find (handle_of_bytes n) (p_ids B) <> None) /\
-    (forall h1 h2 id, nm_find h1 (p_ids B) = Some id -> nm_find h2 (p_ids B) = Some id -> h1 = h2).
+    (forall h1 h2 id, nm_find h1 (p_ids B) = Some id -> nm_find h2 (p_ids B) = Some id -> h1 = h2) /\
+    (forall h id, nm_find h (p_ids B) = Some id -> id < two32).
 Proof.
   intros HM HB Hlen. destruct M as [subs funs imps]. cbn [in_f1] in HM.
   destruct subs; [|discriminate]. destruct funs as [|[name f] [|]]; try discriminate.
@@ -345,14 +346,22 @@ Proof.
   { assert (G2' : G (cs_code s2) (cs_ids s2) s2).
     { apply G_here; [apply (g_pc _ _ _ G2)|]. intros Hl. destruct (g_ids _ _ _ G2 Hl) as [I1 I2 I3 _]. auto. }
     pose proof (sp3_after_main (cs_code s2) (cs_ids s2) std s2 G2') as S. rewrite Eafter in S. apply S. }
-  destruct (g_ids _ _ _ Gs Hlen) as [_ _ Iinj Iext].
+  destruct (g_ids _ _ _ Gs Hlen) as [Inv Ilt Iinj Iext].
   destruct (g_code _ _ _ Gs) as [l El].
   assert (Hsub : sub (cs_ids s2) (cs_ids s)) by exact Iext.
-  exists (rev l). split; [|split].
+  exists (rev l). split; [|split; [|split]].
   - f_equal. rewrite El, (Hcode2 _ Hsub), c1. cbn [s0 init_state cs_code]. rewrite app_nil_r, rev_app_distr, rev_involutive.
     rewrite <- app_assoc. reflexivity.
   - intros n Hin. specialize (Hnames2 n Hin).
     destruct (nm_find (handle_of_bytes n) (cs_ids s2)) as [id|] eqn:En; [|congruence].
     rewrite (Hsub _ _ En). discriminate.
   - exact Iinj.
+  - intros h id Hf. specialize (Ilt _ _ Hf). rewrite Inv in Ilt. lia.
+Qed.
+
+Lemma in_f1_cards M : in_f1 M = true -> forallb stmt_f1 (main_cards M) = true.
+Proof.
+  destruct M as [subs funs imps]. cbn [in_f1].
+  destruct subs; [|discriminate]. destruct funs as [|[name f] [|]]; try discriminate.
+  destruct imps; [|discriminate]. intros H. apply andb_true_iff in H. apply H.
 Qed.
